@@ -372,15 +372,20 @@ package bkl
 // ------------------------------------------------------------------------------------------------- yaml.go (shape contracts)
 
 //@ func yamlMerge(dst, src, node) (err)
+//@   uses canonNth
 //@   mutates dst
 //@   requires ((_ is VMap) dst)
 //@   ensures ((_ is VMap) dst@post)
+//@   ensures (=> (and (canon dst) (canon src)) (canon dst@post))                                            [C04]
 //@   loop 1
 //@     invariant ((_ is VMap) dst)
+//@     invariant (=> (and (canon dst@pre) (canon src)) (canon dst))
 //@   loop 2
 //@     invariant ((_ is VMap) dst)
+//@     invariant (=> (and (canon dst@pre) (canon src)) (canon dst))
 //@   loop 3
 //@     invariant ((_ is VMap) dst)
+//@     invariant (=> (and (canon dst@pre) (canon src)) (canon dst))
 
 //@ func Document.Process(d, mergeFromDocs) (docs, err)
 //@   uses rappLen
@@ -478,6 +483,9 @@ package bkl
 //@   decreases (- 1002 depth) 4
 //@ func process2DecodeStringMap(obj, mergeFrom, mergeFromDocs, ec, v, depth) (res, err)
 //@   decreases (- 1002 depth) 3
+//@   property C04
+//@   at call process2#1
+//@     assert (=> (decShape (hd (ls decs))) (canon dec))                                                  [C04] [C14]
 //@ func process2List(obj, mergeFrom, mergeFromDocs, ec, depth) (res, err)
 //@   uses appNil, snocApp, escNoKey
 //@   ensures (=> (quiet obj (- depth 1)) (and (not (isErr err)) (= res (dropF obj))))    [C06]
@@ -777,4 +785,43 @@ package bkl
 //@     invariant (= (rapp ret (filterMatch (heap Document.Data) rest pat)) (rapp ret@loop (filterMatch (heap Document.Data) ds pat)))
 
 //@ func yamlTranslateNode(node, depth) (res, err)
+//@   uses canonApp
+//@   ensures (=> (not (isErr err)) (canon res))                                                              [C04]
 //@   decreases (- 1002 depth)
+//@   loop 1
+//@     invariant (and ((_ is VList) ret) (canonL (ls ret)))
+//@   loop 2
+//@     invariant (and ((_ is VMap) ret) (canon ret))
+//@   loop 3
+//@     invariant (and ((_ is VMap) ret) (canon ret))
+
+// ------------------------------------------------------------------------------------------------- normalize.go, process2.go (canonical numbers, C04)
+
+//@ func normalize(obj) (res, err)
+//@   ensures (=> ((_ is VNum) obj) (or (isErr err) ((_ is VInt) res) ((_ is VFlt) res)))                     [C04]
+//@   ensures (=> ((_ is VI64) obj) (and (not (isErr err)) (= res (VInt (lv obj)))))                          [C04]
+//@   ensures (=> (and (not (isErr err)) (decShape obj)) (canon res))                                         [C04]
+//@   ensures (=> (canon obj) (and (not (isErr err)) (= res obj)))                                            [C04]
+//
+//@ func normalizeMap(obj) (res, err)
+//@   requires ((_ is VMap) obj)
+//@   ensures (=> (and (not (isErr err)) (decShape obj)) (canon res))                                         [C04]
+//@   ensures (=> (canon obj) (and (not (isErr err)) (= res obj)))                                            [C04]
+//@   call filterMap#1
+//@     invariant ((_ is VMap) ret)
+//@     invariant (=> (decShape m) (forall ((j String)) (=> (not (= (select (mc ret) j) VAbsent)) (canon (select (mc ret) j)))))
+//@     invariant (=> (canon m) (forall ((j String)) (= (select (mc ret) j) (ite (select visited j) (select (mc m) j) VAbsent))))
+//
+//@ func normalizeList(obj) (res, err)
+//@   uses canonApp, appNil, snocApp
+//@   ensures (=> (and (not (isErr err)) (decShape obj)) (canon res))                                         [C04]
+//@   ensures (=> (canon obj) (and (not (isErr err)) (= res obj)))                                            [C04]
+//@   call filterList#1
+//@     invariant ((_ is VList) ret)
+//@     invariant (=> (decShapeL (ls l)) (and (canonL (ls ret)) (decShapeL rest)))
+//@     invariant (=> (canonL (ls l)) (and (= (app (ls ret) rest) (ls l)) (canonL rest)))
+//
+//@ func normalizeListMap(obj) (res, err)
+//
+//@ func normalizeNumber(obj) (res, err)
+//@   ensures (=> (not (isErr err)) (or ((_ is VInt) res) ((_ is VFlt) res)))                                 [C04]
